@@ -17,6 +17,7 @@ HARNESS_PACKAGES = [
     ("motion-driver", {"release": True}),
     ("ssr-driver", {}),
     ("futures-driver", {}),
+    ("arena-driver", {}),
 ]
 
 TB = ("Trusted: Coq 8.16.1 kernel and vm_compute; the hand-written Gallina model is tied to the code only by the "
@@ -65,7 +66,7 @@ _R = {
     "C16": ("proof", "5.C16", "every use_context returns the nearest enclosing provision according to a reference walk over the program's scope tree, duplicates panic; a second root with sentinel provisions is alive beside the scenario's root and top-level run_in statements are issued from inside it.",
             " Proved on Reactive/Interp.v itself: C16_use_context_nearest (whenever the walk answers it answers with the nearest provision on the ownership chain and changes nothing), functionality of 'nearest', totality when parents are older than children, shadowing, duplicate provision panics, a fresh provision is visible, dispose_children (hence every re-run) clears what the node provided."),
     "C04": ("proof", "5.C04", "cleanups run at most once and exactly once by root disposal, live nodes = nodes reachable through ownership, no dead subscribers, nothing alive after root disposal.",
-            " Proved on Reactive/Interp.v itself (Reactive/Own.v, DisposeFacts.v, Isolation.v; whole-block inductions over the 12 mutually recursive functions, axiom-free): after EVERY program that completes the graph is well formed, ownership is a tree (children lists and owner pointers mirror each other, every live node reaches the root through live owners) and per cleanup label emitted + still registered = registered (C04_program_final_state); a disposal leaves the scope dead, every survivor outside its subtree and rooted, no edge mentioning it (C04_dispose_leak_free, _no_edges, _not_alive), with the cleanup conservation law as an equality (C04_dispose_cleanups_exact); a node being disposed is never run again (C04_disposed_node_stays_clean). The proof attempts found the defects F17 (pointed out by a seed author), F20 and F21, all repaired; mapped-list item scopes are C07's. Every scenario ends with an observed RootHandle::dispose() (model: disposal of the root scope; must agree event by event), followed by the creation of new nodes in the re-initialised root with a count of the old handles that report alive (must be 0): this found F27 and F28, repaired. A memo / effect destroyed by a cleanup of its own previous run does not run again (F32, found by an auditor's fuzzer: repaired in code and model, theorems C04_disposed_by_cleanup_not_rerun, C04_rerun_iff_survived; the oracle checks it inside every statement from the logged positions of disposals)."),
+            " Proved on Reactive/Interp.v itself (Reactive/Own.v, DisposeFacts.v, Isolation.v; whole-block inductions over the 12 mutually recursive functions, axiom-free): after EVERY program that completes the graph is well formed, ownership is a tree (children lists and owner pointers mirror each other, every live node reaches the root through live owners) and per cleanup label emitted + still registered = registered (C04_program_final_state); a disposal leaves the scope dead, every survivor outside its subtree and rooted, no edge mentioning it (C04_dispose_leak_free, _no_edges, _not_alive), with the cleanup conservation law as an equality (C04_dispose_cleanups_exact); a node being disposed is never run again (C04_disposed_node_stays_clean). The proof attempts found the defects F17 (pointed out by a seed author), F20 and F21, all repaired; mapped-list item scopes are C07's. Every scenario ends with an observed RootHandle::dispose() (model: disposal of the root scope; must agree event by event), followed by the creation of new nodes in the re-initialised root with a count of the old handles that report alive (must be 0): this found F27 and F28, repaired. A memo / effect destroyed by a cleanup of its own previous run does not run again (F32, found by an auditor's fuzzer: repaired in code and model, theorems C04_disposed_by_cleanup_not_rerun, C04_rerun_iff_survived; the oracle checks it inside every statement from the logged positions of disposals). NODE IDENTITIES: Interp.v takes node ids from a fresh supply, the code takes them from a slot map that RE-USES slots; Reactive/Arena.v models that slot map literally (versions with their u32 wrap, free list, drain, the old and the new Root::reinit) and Reactive/ArenaFacts.v / Props/C04a.v prove, for every history of insertions / removals / drains with fewer than 2^31-1 insertions, that a removed or drained key is never alive again, that every key handed out is new, and that liveness of handed-out keys is exactly membership in the abstract set of live keys (the refinement that justifies the fresh supply), with the refutation for the old reinit (a fresh map resurrects keys: F28). harness/arena-driver drives the real create_signal / create_child_scope / dispose / RootHandle::dispose and Arena.v must predict the raw key and liveness of EVERY handle after every step; Reactive/ArenaDriver.v lifts the theorems to that compared function itself (every driver state is a history state: no raw key printed for two handles, a handle seen dead stays dead after any continuation, a re-initialisation kills every earlier handle), so the two clauses of the run's oracle are theorems about the model."),
     "C10": ("proof", "5.C10", "nothing runs and derived values stay frozen between the markers of an outermost batch; the flush runs each computation at most once and leaves a consistent state; every fourth program with a batch is also run with the batch started while another root is the current one and every write mirrored into a signal of that root (writes to the two roots interleaved inside the batch).",
             " Proved on Reactive/Interp.v (Reactive/BatchFacts.v): inside a batch a write only queues (C10_batch_defers); for EVERY body -- creating effects, disposing scopes, nested batches at any depth -- execution under the batch flag coincides with an interpreter from which propagate / loop / run_node_update have been removed, and the flag survives the body (C10_batched_exec, C10_batching_kept); a nested batch is a pair of brackets, the outermost one is body-without-propagation followed by ONE propagation from the queue (C10_inner_batch, C10_outermost_batch); no run event between the brackets for bodies that create and dispose nothing (C10_batch_quiet_log). The flush: on ReactivePure a batch of writes from a quiescent state leads to a quiescent state (C10_flush_consistent, under the late-read hypothesis = F1). 'Exactly once per surviving affected computation' is judged by the oracle and, on ReactivePure, by the NoDup schedule."),
     "C11": ("proof", "5.C11", "no runtime panic under a disposal injected at every statement position of every callback/cleanup/batch body, and no corruption of later updates.",
